@@ -104,6 +104,54 @@ def human(n):
     return "%.1f %sB" % (n / 1000.0 ** exp, "KMGTPE"[exp - 1])
 
 
+def bash_split(lines, cwd):
+    """the words real bash makes of every printed line (one bash process; NUL separated, argc first)"""
+    if not lines:
+        return []
+    sf = os.path.join(cwd, b"split.sh")
+    with open(sf, "wb") as f:
+        f.write(b"f() { printf '%s\\0' \"$#\" \"$@\"; }\n")
+        for l in lines:
+            f.write(b"f " + l + b"\n")
+    p = subprocess.run(["env", "-i", "PATH=/usr/bin:/bin", "HOME=/tildehome", "bash", "--norc", "--noprofile", sf], cwd=cwd,
+                       stdout=subprocess.PIPE, stderr=subprocess.PIPE, timeout=120)
+    toks = p.stdout.split(b"\0")
+    out, i = [], 0
+    while i < len(toks) - 1:
+        n = int(toks[i])
+        out.append(toks[i + 1:i + 1 + n])
+        i += 1 + n
+    return out
+
+
+def script_ops(words):
+    """printed script -> [(kind, victim path)] in order; kind in rm / ln / ln-s / cp / mv (a temp-file mv / rm pair around a link
+    command is folded into the link command)"""
+    ops = []
+    i = 0
+    while i < len(words):
+        w = words[i]
+        if len(w) == 3 and w[0] == b"mv" and i + 2 < len(words) and words[i + 1][0] in (b"ln", b"cp") and words[i + 2][0] == b"rm" \
+                and words[i + 2][1] == w[2]:
+            mid = words[i + 1]
+            kind = "ln-s" if mid[:2] == [b"ln", b"-s"] else ("cp-reflink" if mid[0] == b"cp" else "ln")
+            ops.append((kind, w[1], mid[-2]))
+            i += 3
+        elif w[0] == b"rm" and len(w) == 2:
+            ops.append(("rm", w[1], None))
+            i += 1
+        elif w[0] == b"mv" and len(w) == 3:
+            ops.append(("mv", w[1], w[2]))
+            i += 1
+        elif w[0] == b"cp" and len(w) == 3 and i + 1 < len(words) and words[i + 1] == [b"rm", w[1]]:
+            ops.append(("cp+rm", w[1], w[2]))
+            i += 2
+        else:
+            ops.append(("?", b" ".join(w), None))
+            i += 1
+    return ops
+
+
 def run_bash(script_lines, cwd):
     sf = os.path.join(cwd, b"script.sh")
     with open(sf, "wb") as f:
@@ -166,6 +214,30 @@ def run_case(model, scratch, kind, idx, seed):
                     ("script_lines", min(ncmd_lines, 30) // 3 * 3), ("groups", min(len(groups), 40) // 4 * 4),
                     ("symlinks_reported", int(sym_in_report)), ("lock", "no-lock" if s.no_lock else "lock"),
                     ("priority", ",".join(s.sem["prio"]) or "-"), ("kind", kind if kind.startswith("random") else kind.rsplit("_", 1)[0])]
+    # ---- direct oracle on the printed script: same files, same kind of operation, groups in report order
+    work0 = os.path.join(s.base + b"_work", b"splitcwd")
+    os.makedirs(work0, exist_ok=True)
+    real_lines0 = dout.split(b"\n")
+    if real_lines0 and real_lines0[-1] == b"":
+        real_lines0.pop()
+    ops = script_ops(bash_split(real_lines0, work0))
+    gidx = {}
+    for gi, g in enumerate(groups):
+        for pth in g["files"]:
+            gidx[pth] = gi
+    want = {"remove": ("rm",), "link": ("ln",), "softlink": ("ln-s",), "dedupe": ("cp-reflink",), "move": ("mv", "cp+rm")}[s.op]
+    seq = []
+    for kind, victim, other in ops:
+        if kind not in want or victim not in gidx:
+            viol({"kind": "script_names_wrong_operation"}, "printed command %s on %r is not a `%s` of a report path" % (kind, victim, s.op))
+            break
+        if kind in ("ln", "ln-s", "cp-reflink") and (other not in gidx or gidx[other] != gidx[victim]):
+            viol({"kind": "script_link_target_not_in_group"}, "printed link target %r is not a member of the group of %r" % (other, victim))
+            break
+        seq.append(gidx[victim])
+    if seq != sorted(seq):
+        viol({"kind": "script_groups_out_of_order"}, "the printed script does not follow the order of the groups in the report: %r" % (seq[:40],))
+    script_victims = sorted(v for _, v, _ in ops)
     # ---- model
     m = None
     if model:
@@ -194,6 +266,7 @@ def run_case(model, scratch, kind, idx, seed):
     out["count"] += 1
     rsum = X.summary(rerr)
     invB = X.inventory(s.treedir)
+    changed_real = sorted(p for p in inv0 if inv0[p][0] != "d" and not X.entry_same(inv0[p], invB.get(p)))
     n6 = False
     if sym_in_report and not s.no_lock and s.op in ("remove", "move", "link", "softlink", "dedupe"):
         # N6: a victim that is a symlink whose target is a victim too, and the lock probe through it failed
@@ -201,6 +274,11 @@ def run_case(model, scratch, kind, idx, seed):
             inv0.get(p, ("?",))[0] == "l" and X.resolve(inv0, p) not in (None, p) and X.resolve(inv0, p) not in invB
             for g in groups for p in g["files"])
     n6sig = {"kind": "symlink_victim_after_its_target"}
+    if s.op != "dedupe" and changed_real != script_victims and not (s.op == "link" and set(changed_real) <= set(script_victims)):
+        # (`link` of two names of one inode with --match-links changes nothing observable)
+        if not n6_possible(sym_in_report, s, rerr):
+            viol({"kind": "script_files_differ_from_real_run"}, "files named by the dry-run script %r, files changed by the real run %r" % (
+                script_victims[:8], changed_real[:8]))
     if dsum is None or rsum is None:
         viol({"kind": "summary_missing"}, "no summary line: dry %r real %r" % (derr[-200:], rerr[-200:]))
     else:
@@ -239,7 +317,7 @@ def run_case(model, scratch, kind, idx, seed):
         real_lines = dout.split(b"\n")
         if real_lines and real_lines[-1] == b"":
             real_lines.pop()
-        work = os.path.join(s.base, b"bashcwd")
+        work = os.path.join(s.base + b"_work", b"bashcwd")
         os.makedirs(work, exist_ok=True)
         brc, berr = run_bash(real_lines, work)
         out["count"] += 1
@@ -255,7 +333,12 @@ def run_case(model, scratch, kind, idx, seed):
             out["bump"].append(("bash_stderr_nonempty", 1))
     out["sample"] = {"scenario": name, "op": s.op, "lines": ncmd_lines, "dry": dsum, "real": rsum}
     shutil.rmtree(base, ignore_errors=True)
+    shutil.rmtree(base + b"_work", ignore_errors=True)
     return out
+
+
+def n6_possible(sym_in_report, s, rerr):
+    return sym_in_report and not s.no_lock and b"for write: No such file or directory" in rerr
 
 
 def m_dry(m):
